@@ -737,3 +737,10 @@ pub fn build(text: &str, max_k: usize, cfg: &GenCfg) -> std::result::Result<Buil
         max_k_requested: max_k,
     })
 }
+
+/// The generated user trait / AST source for a (transformed) grammar configuration.
+pub fn trait_source(gc: &GrammarConfig, cfg: &GenCfg) -> Result<String> {
+    use parol::{GrammarTypeInfo, UserTraitGenerator};
+    let mut type_info = GrammarTypeInfo::try_new(cfg.user_type_name())?;
+    UserTraitGenerator::new(gc).generate_user_trait_source(cfg, gc.grammar_type, &mut type_info)
+}
